@@ -27,6 +27,7 @@ class C11(Check):
             "accept / open for a direct port-ID colliding with a transitive one). distinct = hash of (sorted problem kinds, "
             "verdict, read kind, where the conflicting definitions live); non-trivial = at least two definitions share a name "
             "or a port-ID")
+    RULE = RULE + "; " + 'round 8: message bodies are unions as well as structures'
     TIERS = {"quick": {"runs": 2400, "budget_s": 45}, "thorough": {"runs": 100000, "budget_s": 900}}
 
     def generate(self, rng: random.Random, r: int, tier: str) -> dict:
